@@ -30,7 +30,7 @@ type item struct {
 
 type link struct {
 	mu     sync.Mutex
-	gated  bool   // packets are parked in gq instead of q
+	gated  bool // packets are parked in gq instead of q
 	gq     [][]byte
 	q      []item
 	notify chan struct{}
@@ -47,9 +47,9 @@ type Net struct {
 	to      map[string]*link // link delivering *to* the endpoint
 
 	mu       sync.Mutex
-	silenced map[string]bool // packets sent *by* this endpoint vanish silently
-	blocked  map[string]bool // sends by this endpoint block until ctx is done
-	failing  map[string]bool // sends by this endpoint fail at once
+	silenced map[string]bool          // packets sent *by* this endpoint vanish silently
+	blocked  map[string]bool          // sends by this endpoint block until ctx is done
+	failing  map[string]bool          // sends by this endpoint fail at once
 	lag      map[string]time.Duration // sends by this endpoint return late
 	// Describe turns a serialized packet into trace fields.
 	Describe func(b []byte) []any
@@ -137,7 +137,6 @@ func (n *Net) Inject(to string, b []byte) {
 	l.gated = g
 	l.mu.Unlock()
 }
-
 
 // Gate parks (on) every later packet towards endpoint to until Release.
 func (n *Net) Gate(to string, on bool) {
